@@ -4,8 +4,9 @@ A case is a PROGRAM (SSA list of public Field operations over 1-3 input fields o
 mesh, executed step by step on the real code; the model evaluates ONE inlined expression per
 step), a SESSION (`hist`: statements over numbered variables mixing builds with IN-PLACE changes of
 existing fields — `x.valid = spec`, `x.valid[idx] = v`, `x.rotate90(inplace=True)`, `y = +x`; the
-model runs the same statements over its store of buffers), a SETTER case (one assignment
-`field.valid = spec` / `Field(..., valid=spec)`) or a GEO case (tolerance regime: one coordinate-located cell map -
+model runs the same statements over its store of buffers AND mesh objects), a SETTER case (one assignment
+`field.valid = spec` / `Field(..., valid=spec)`), a DICT case (`valid = {subregion: value, ..., "default": ...}` on a mesh
+with overlapping / covering / partial subregions) or a GEO case (tolerance regime: one coordinate-located cell map -
 resample / sel plane / sel range / field[region] - of a field whose values NUMBER its cells, on a mesh with arbitrary
 binary64 corners; the result itself tells which cell every value came from, its validity must be that cell's).
 
@@ -39,7 +40,12 @@ RULE = ("programs: every public Field operation that returns a field (unary/deri
         "compositions of 2-5 steps (model: ONE inlined expression per step); sessions of 3-7 statements mixing builds with "
         "IN-PLACE changes of existing fields (x.valid = spec, x.valid[idx] = v, x.rotate90(inplace=True), y = +x): after every "
         "statement the masks of ALL variables, which variables are one object and which share memory are compared with the "
-        "model's store, and on the code alone: no other field's mask or values change; setter: None, numbers, bool/int/float "
+        "model's store - also which variables hold ONE Mesh object and every mesh.n (in-place turns of fields that share their "
+        "mesh with operands / results, fix d0059dba) - and on the code alone: no other field's mask or values change, every live "
+        "field keeps valid.shape == mesh.n; irfftn with / without shape / directly on a field; DICT stream: dictionaries over 1-4 "
+        "(overlapping / covering / partial) subregions with number / array / list / (*n,1) / callable values, missing keys, "
+        "foreign keys, number / callable / missing default, malformed values, by assignment and through the constructor, "
+        "expected mask computed independently (first subregion wins); setter: None, numbers, bool/int/float "
         "arrays and nested lists of shape n, (*n,1) and broadcastable shapes, callables, 'norm' with lengths straddling 1e-8, "
         "Boolean scalar FIELDS on the same / a larger / a non-containing region, malformed arguments, by assignment and "
         "through the constructor; GEO stream (tolerance regime): resample / sel(point) / sel(range) / field[region] of a field "
@@ -67,27 +73,48 @@ ASSUMPTIONS = ["programs / sessions / setter: exact-regime geometry (dyadic corn
                "'norm': cells whose squared length is within 2^-30 (relative) of 1e-16 are not compared"]
 UNPROVED = ["ownership (a result's validity is its own) is a REQUIREMENT stated on the store model (every statement that "
             "builds a field or assigns validity binds a new buffer; theorems session_invariant / session_ownership / "
-            "session_write_isolated over all histories with in-place changes, result_owns_validity / write_leaves_operands per "
-            "expression) and OBSERVED on the code with np.shares_memory, write-through probes and persistent in-place writes "
-            "in sessions; that NumPy's np.array(..., dtype=bool) copies is not provable in Lean; unary plus returns its operand "
-            "(open finding D7, mirrored by the model: session_unary_plus_shares)",
+            "session_write_isolated / session_result_shares_mesh_not_validity over all histories with in-place changes, "
+            "result_owns_validity / write_leaves_operands per expression) and OBSERVED on the code with np.shares_memory, "
+            "write-through probes and persistent in-place writes in sessions; that NumPy's np.array(..., dtype=bool) copies is "
+            "not provable in Lean; unary plus returns its operand (open finding D7, mirrored by the model: "
+            "session_unary_plus_shares).  Likewise WHICH Mesh object a result holds (meshOf: the operand's for operations that "
+            "keep the cells, a new one otherwise and after an in-place quarter turn, repo fix d0059dba) is modelled "
+            "(session_mesh_consistent / session_mesh_immutable / session_build_shares_mesh / session_rotate_unshares_mesh over all "
+            "histories) and OBSERVED with `is` after every statement; the model's sharing is compared as an upper bound (a "
+            "library that copies a mesh where the model shares it is only counted, tag mesh:impl-copies)",
             "masks of mean / integrate / fftn family (new cell sets, not named by the property): modelled (all cells valid, shape "
-            "of the new mesh: valid_fresh) and compared with the code, but the oracle on the code alone checks them only "
-            "structurally; irfftn is not exercised",
-            "setter arguments outside the property's list: a dict over subregions is not modelled; a scalar FIELD is modelled at "
-            "mask level for Boolean fields only (setter_field_lookup, resample_is_field_setter) - a REAL-valued field used to keep "
-            "its float dtype (finding D111, fixed in /repo 4c0fafc6; the class is generated and checked by the oracle)",
-            "object level: theorems speak about the validity array of each Field (and pairs (value, validity) for the mapping "
-            "operations); that the Fld-level operations of C03/C05/C07 hand exactly these arrays to the constructor is checked "
-            "by the correspondence runs of those properties and of this one, not by a Lean theorem linking the models",
+            "of the new mesh: valid_fresh; tied to the C06 model's integrate / mean and to the C11 model's k-meshes by "
+            "link_c06_fresh / link_c11_kmesh - the C11 model carries no validity, so only the SHAPE is linked there) and compared "
+            "with the code, irfftn with / without shape and directly on a field included; the oracle on the code alone checks "
+            "them only structurally; an irfftn shape the library refuses is not generated",
+            "setter: one total function of every argument kind with refusal iff malformed (setter_accepted_iff, "
+            "setValid_accepted_iff, setter_any_accepted_iff); a dict over the subregions of the mesh is modelled "
+            "(dict_setter_first_wins; number / array / callable values and defaults; a Field or a nested dict as a VALUE of the "
+            "dictionary, and an array as default, are not generated or modelled; numpy's broadcasting of a sub-array whose block "
+            "of region2slices differs from mesh[name].n does not occur in the exact regime); a scalar FIELD as the argument is "
+            "modelled at mask level for Boolean fields only (setter_field_lookup, resample_is_field_setter) - a REAL-valued "
+            "field used to keep its float dtype (finding D111, fixed in /repo 4c0fafc6; the class is generated and checked by "
+            "the oracle)",
+            "object level: the validity array of the results of the field-level models is linked to Props/C08 by theorems on "
+            "THEIR definitions: C03 every expression (link_c03_expression via the translation progOf, link_c03_operations), C05 "
+            "grad / div / curl / laplace / diff (link_c05_derivatives), C07 sel / field[...] / pad / resample "
+            "(link_c07_sel / _getitem / _pad / _resample: value array and validity array are ONE MapOp), the shared rotation "
+            "model of C12/C13 (link_c12_rotate90), C06 (link_c06_fresh), C11 (shape only), C15 (norm_history_keeps_validity, "
+            "norm_orientation_keep_validity, norm_mask_agrees_c15 under C15.SqrtAt).  NOT linked: the file codecs of the C09 / "
+            "C10 / C16 models (VTK / HDF5 round trips are stated on this model's own codec only), C02's constructor paths other "
+            "than the validity setter, C04.diff's restrict2valid=False flavour beyond `valid` being passed through; the link "
+            "theorems take the SUCCESS of the C03/C05/C07 operation as hypothesis (acceptance is those properties' matter) and, "
+            "for C07 pad / resample, the mesh invariants (>= 1 cell per axis, positive edges, arrays of the mesh shape)",
             "GEO stream: which source cell the DATA of a resampled / selected field comes from is read off the result (values "
-            "number the cells) and only checked for admissibility; the model comparison is skipped for results with more than "
-            "~40000 x (cells per axis) lookups (Lean evaluates nearest-cell search linearly): those large cases (thousands of "
-            "cells along an axis) are judged by the code-alone oracle only; a selection the library refuses (point outside the "
-            "region by rounding) has no result and is only counted (tag geo-raised)",
-            "in-place rotate90 turns the Mesh OBJECT, which results share with their operand (g = -f; g.rotate90(inplace=True) "
-            "leaves f.valid.shape != f.mesh.n): sessions turn only fields with a mesh of their own (C12/C13 matter, reported)"]
-BUDGET = {"quick": 150, "thorough": 1500}
+            "number the cells) and only checked for admissibility; for the large cases (thousands of cells along an axis, tag "
+            "geo-model:fast-large) the model evaluates the ARRAY only - resample through the closed form of the source cell "
+            "(nearest_closed_form, resample_fast_is_resample), selections through the mapping operation alone - without the "
+            "index-level reading, the store model and the lookup with the observed border decisions; a selection the library "
+            "refuses (point outside the region by rounding) has no result and is only counted (tag geo-raised)",
+            "mesh objects changed BEHIND the Field API (f.mesh.rotate90(inplace=True), f.mesh.n = ... on a mesh shared by several "
+            "fields) are outside the sessions: session_mesh_immutable speaks about the statements of the model (Field "
+            "operations), not about what a user does to the Mesh object directly (C12/C13 matter)"]
+BUDGET = {"quick": 150, "thorough": 1600}
 
 PAD_MODES = ["constant", "edge", "wrap", "symmetric", "reflect"]
 REFUSALS = ("Missing information about vector orientation", "Cannot compute divergence", "Cannot compute curl",
@@ -430,7 +457,9 @@ def _mk_binf(name, fn, cond, rt):
         rtype = staticmethod(lambda tys, a: rt(tys, a))
         run = staticmethod(lambda fs, a: fn(fs[0], fs[1]))
         # np.add(f, g) ... go through Field.__array_ufunc__ (np.logical_and.reduce over the field inputs)
-        node = staticmethod((lambda cs, a, o: ufunc(cs[0], cs[1])) if name.startswith("np_") else (lambda cs, a, o: binF(cs[0], cs[1])))
+        # (the j-th element of a tuple of results is built on the mesh of the j-th field input: `np.divmod(f, g)[1]` on g's)
+        node = staticmethod((lambda cs, a, o: ufunc(cs[1], cs[0])) if name == "np_divmod1" else
+                            (lambda cs, a, o: ufunc(cs[0], cs[1])) if name.startswith("np_") else (lambda cs, a, o: binF(cs[0], cs[1])))
     return _B
 
 
@@ -757,9 +786,22 @@ class _MeanDirs(Base):
     node = staticmethod(lambda cs, a, o: fresh("reduce", cs[0], axes=[a["ax"], _other_ax(a, o["ndim_in"])]))
 
 
-_FINAL_ONLY = {"fftn": (lambda f, d: f.fftn(), lambda cs, a, o: fresh("same", cs[0])),
+def _odd_shape(f):
+    n = [int(k) for k in f.mesh.n]
+    return tuple(n[:-1] + [2 * n[-1] - 1])
+
+
+_FINAL_ONLY = {"fftn": (lambda f, d: f.fftn(), lambda cs, a, o: fresh("spectrum", cs[0])),
                "rfftn": (lambda f, d: f.rfftn(), lambda cs, a, o: fresh("rfft", cs[0])),
-               "fft_roundtrip": (lambda f, d: f.fftn().ifftn(), lambda cs, a, o: fresh("same", fresh("same", cs[0])))}
+               "fft_roundtrip": (lambda f, d: f.fftn().ifftn(), lambda cs, a, o: fresh("spectrum", fresh("spectrum", cs[0]))),
+               # irfftn: back from the half spectrum with the original shape named / not named (an odd last count is then
+               # not recovered), and applied directly to a field read as a half spectrum (default and odd last count)
+               "irfftn_shape": (lambda f, d: f.rfftn().irfftn(shape=tuple(int(k) for k in f.mesh.n)),
+                                lambda cs, a, o: fresh("irfft", fresh("rfft", cs[0]), last=o["n_in"][-1])),
+               "irfftn_default": (lambda f, d: f.rfftn().irfftn(), lambda cs, a, o: fresh("irfft", fresh("rfft", cs[0]), last=None)),
+               "irfftn_direct": (lambda f, d: f.irfftn(), lambda cs, a, o: fresh("irfft", cs[0], last=None)),
+               "irfftn_direct_odd": (lambda f, d: f.irfftn(shape=_odd_shape(f)),
+                                     lambda cs, a, o: fresh("irfft", cs[0], last=2 * o["n_in"][-1] - 1))}
 for _n, (_f, _nd) in _FINAL_ONLY.items():
     _mk_free(_n, _f, real_, lambda t, a: with_(t, cplx=True, grp="K"), _nd)
 
@@ -897,8 +939,10 @@ def gen_hist(rng):
     `x_i.rotate90(..., inplace=True)`; the generator tracks which variables are names of one object (`+f`)"""
     global HIST_BUILD_POOL
     if HIST_BUILD_POOL is None:
+        # (`clone` = the harness's own re-construction on a NEW Mesh object: not a library operation, kept out of the
+        # sessions, whose model also tracks which variables hold ONE Mesh object)
         HIST_BUILD_POOL = ([n for n in ALL_SAME if n != "clone"] * 2 + ALL_AND * 3 + [n for n in ALL_MAPPED if n != "rot_inplace"] * 3
-                           + ["pos"] * 8 + ["clone"] * 6 + ["mean_dir", "integrate_dir", "integrate_cum", "mean_dirs"])
+                           + ["pos"] * 8 + ["mean_dir", "integrate_dir", "integrate_cum", "mean_dirs"])
     mesh = small_mesh(rng)
     leaves = gen_leaves(rng, rng.choice([1, 2, 2, 3]), cplx_prob=0.05)
     types = [leaf_type(mesh, l["nvdim"], l["cplx"]) for l in leaves]
@@ -939,10 +983,10 @@ def gen_hist(rng):
             i = rng.randrange(len(types))
             stmts.append(dict(s="poke", i=i, pos=rng.randrange(int(np.prod(types[i]["n"]))), v=rng.random() < 0.5))
         else:
+            # any field, also one that shares its Mesh object with its operand / its results (repo fix d0059dba: the turned
+            # field gets a NEW mesh object, the shared one stays as it is)
             i = rng.randrange(len(types))
-            if rng.random() < 0.7:  # a field with a mesh object of its own (in-place rotation turns the Mesh OBJECT)
-                if not build("clone", [i]):
-                    continue
+            if rng.random() < 0.5:
                 i = len(types) - 1
             a = _rot_gen([types[i]], rng)
             if a is None:
@@ -983,6 +1027,11 @@ def cases(rng, tier):
         yield gen_geo(rng, "small")
     for _ in range(250 if quick else 4000):
         yield gen_geo(rng, "long")
+    # a dictionary over the subregions of the mesh as validity (the dict branch of `_as_array`)
+    for _ in range(260 if quick else 4000):
+        mesh = fieldio.gen_mesh_spec(rng, max_cells=60, nmax=5)
+        yield dict(kind="dict", mesh=mesh, nvdim=rng.choice([1, 2, 3]), flavour=rng.choice(DICT_FLAVOURS), ctor=rng.random() < 0.4,
+                   sub=rng.getrandbits(32))
     for rep in range(10 if quick else 150):
         for spec in SETTER_SPECS + (["field_real"] if FIELD_REAL_SPEC else []):
             mesh = small_mesh(rng)
@@ -1075,7 +1124,9 @@ def make_spec(kind, f, rng):
         return a, arr_spec(a), exp.copy(), False
     if kind in ("func_half", "func_npbool"):
         ax = rng.randrange(len(n))
-        c = pmin[ax] + rng.randint(0, n[ax]) * cell[ax]  # a cell face: never a centre
+        # a quarter of a cell beyond a cell face: a quarter cell away from every centre AND from every cell corner (a callable
+        # asked at a corner instead of the centre answers differently)
+        c = pmin[ax] + (rng.randint(0, n[ax]) + Fraction(rng.choice([-1, 1]), 4)) * cell[ax]
         cf = float(c)
         fn = (lambda p: p[ax] < cf) if kind == "func_half" else (lambda p: np.bool_(p[ax] < cf))
         exp = np.zeros(n, bool)
@@ -1243,7 +1294,7 @@ def run_prog(case):
         obs["tags"].append("op:" + name)
         ins = [vals[i] for i in st["in"]]
         snaps = [mask_bytes(g) for g in vals]
-        so = dict(ok=False, ndim_in=int(ins[0].mesh.region.ndim), nvdim_in=int(ins[0].nvdim))
+        so = dict(ok=False, ndim_in=int(ins[0].mesh.region.ndim), nvdim_in=int(ins[0].nvdim), n_in=[int(k) for k in ins[0].mesh.n])
         obs["steps"].append(so)
         spec_info = None
         try:
@@ -1345,7 +1396,8 @@ def patch_band(mspec, band, observed):
 def snapshot(vals):
     return [dict(shape=[int(k) for k in f.valid.shape], data=np.asarray(f.valid).astype(bool).reshape(-1).tolist(),
                  same=min(j for j, g in enumerate(vals) if g is f),
-                 mem=min(j for j, g in enumerate(vals) if np.shares_memory(g.valid, f.valid)))
+                 mem=min(j for j, g in enumerate(vals) if np.shares_memory(g.valid, f.valid)),
+                 mesh=min(j for j, g in enumerate(vals) if g.mesh is f.mesh), meshn=[int(k) for k in f.mesh.n])
             for f in vals]
 
 
@@ -1371,7 +1423,7 @@ def run_hist(case):
                 tag = name
                 obs["tags"].append("op:" + name)
                 ins = [vals[i] for i in st["in"]]
-                so.update(ndim_in=int(ins[0].mesh.region.ndim), nvdim_in=int(ins[0].nvdim))
+                so.update(ndim_in=int(ins[0].mesh.region.ndim), nvdim_in=int(ins[0].nvdim), n_in=[int(k) for k in ins[0].mesh.n])
                 res = cls.run(ins, args)
                 check_result(tag, res, vals, snaps, fail)
                 if not isinstance(res, df.Field):
@@ -1402,11 +1454,7 @@ def run_hist(case):
                 elif kind == "rotI":
                     a = st["args"]
                     if any((g is not tgt) and (g.mesh is tgt.mesh) for g in vals):
-                        # in-place rotation turns the Mesh OBJECT, which the library shares between a field and the
-                        # results derived from it (C12/C13 matter): only fields with a mesh of their own are turned here
-                        obs["tags"].append("rotI:shared-mesh-skipped")
-                        so["skipped"] = True
-                        break
+                        obs["tags"].append("rotI:shared-mesh")
                     d = tgt.mesh.region.dims
                     kw = dict(k=a["turns"])
                     if a["ref"]:
@@ -1431,6 +1479,12 @@ def run_hist(case):
                         fail(f"[{tag}] changing the validity of value {i} in place changed the validity of value {j}")
                     if not np.array_equal(arrays[j], g.array, equal_nan=True):
                         fail(f"[{tag}] changing value {i} in place changed the stored values of value {j}")
+            # every live field: validity is a Boolean array of the shape of ITS mesh (an in-place change of another field
+            # that shares the Mesh object must not pull the mesh away from under it)
+            for j, g in enumerate(vals):
+                if tuple(g.valid.shape) != tuple(int(k) for k in g.mesh.n):
+                    fail(f"[{tag}] afterwards value {j} has validity of shape {tuple(g.valid.shape)} on a mesh with n = "
+                         f"{tuple(int(k) for k in g.mesh.n)}")
         except Exception as e:
             if isinstance(e, (RuntimeError, ValueError)) and any(r in str(e) for r in REFUSALS):
                 obs["tags"].append("refused:" + tag)
@@ -1505,6 +1559,186 @@ def run_setter(case):
     if isinstance(pyval, df.Field) and (np.shares_memory(v, pyval.array) or np.shares_memory(v, pyval.valid)):
         fail(f"[{tag}] stored validity shares memory with the field that was assigned")
     obs["nontrivial"] = exp is not None and 0 < int(exp.sum()) < exp.size
+    return obs
+
+
+# ============================================================================ dictionary over subregions (kind "dict")
+DICT_FLAVOURS = ["cover", "cover", "partial_const", "partial_func", "partial_none", "overlap", "overlap", "missing_keys",
+                 "bad_value", "bad_shape", "random", "random", "random"]
+
+
+def _dict_blocks(flavour, n, rng):
+    """subregions as blocks of whole cells [lo, hi) per axis, in the order they are handed to the mesh"""
+    nd = len(n)
+    if flavour == "cover":  # two or three slabs along one axis that together cover the mesh (possibly overlapping)
+        ax = rng.randrange(nd)
+        if n[ax] == 1:
+            return [([0] * nd, list(n))]
+        cut = rng.randint(1, n[ax] - 1)
+        cut2 = rng.randint(0, cut)  # second slab starts at or before the end of the first: overlap
+        a = ([0] * nd, [cut if b == ax else n[b] for b in range(nd)])
+        b_ = ([cut2 if b == ax else 0 for b in range(nd)], list(n))
+        blocks = [a, b_]
+        rng.shuffle(blocks)
+        return blocks
+    k = rng.choice([1, 2, 2, 3])
+    blocks = []
+    for _ in range(k):
+        lo = [rng.randrange(m) for m in n]
+        hi = [rng.randint(l + 1, m) for l, m in zip(lo, n)]
+        blocks.append((lo, hi))
+    if flavour == "overlap" and len(blocks) >= 1:
+        lo, hi = blocks[0]
+        blocks.append(([max(0, l - 1) for l in lo], [min(m, h + rng.randint(0, 1)) for h, m in zip(hi, n)]))
+    return blocks
+
+
+def _dict_value(kind, subn, pmin, cell, lo, rng):
+    """(python value, model DVal, expected mask on the block or None = must be rejected)"""
+    subn = tuple(subn)
+    size = int(np.prod(subn))
+    if kind == "const":
+        v = rng.choice([True, False, 0, 1, 2.5, 0.0, -1])
+        return v, dict(kind="const", v=Q(Fraction(float(v)))), np.full(subn, bool(v))
+    if kind in ("arr", "list"):
+        a = np.array([rng.choice([0.0, 1.0, -2.0, 0.0]) for _ in range(size)]).reshape(subn)
+        if rng.random() < 0.5:
+            a = a != 0
+        py = a.tolist() if kind == "list" else a
+        return py, dict(kind="arr", shape=list(a.shape), data=Qs(np.asarray(a, dtype=float).reshape(-1).tolist())), np.asarray(a) != 0
+    if kind == "arr_col":
+        a = np.array([rng.choice([0.0, 1.0]) for _ in range(size)]).reshape(*subn, 1)
+        return a, dict(kind="arr", shape=list(a.shape), data=Qs(a.reshape(-1).tolist())), a[..., 0] != 0
+    if kind == "arr_one":
+        a = np.array([rng.choice([0.0, 1.0])]).reshape((1,) * (len(subn) + 1))
+        if tuple(a.shape) == subn:
+            a = a.reshape((1,) * (len(subn) + 2))
+            return a, dict(kind="arr", shape=list(a.shape), data=Qs(a.reshape(-1).tolist())), None
+        return a, dict(kind="arr", shape=list(a.shape), data=Qs(a.reshape(-1).tolist())), np.full(subn, bool(a.reshape(-1)[0]))
+    if kind == "func":
+        ax = rng.randrange(len(subn))
+        c = pmin[ax] + (rng.randint(0, 6) + Fraction(rng.choice([-1, 1]), 4)) * cell[ax]  # 1/4 cell off a face: off centres and corners
+        cf = float(c)
+        exp = np.zeros(subn, bool)
+        for idx in np.ndindex(*subn):
+            exp[idx] = pmin[ax] + (lo[ax] + idx[ax] + Fraction(1, 2)) * cell[ax] < c
+        return (lambda p: p[ax] < cf), dict(kind="func", fun=dict(kind="halfspace", ax=ax, c=Q(c))), exp
+    if kind == "bad":
+        return rng.choice(["abc", None, "norm"]), dict(kind="bad"), None
+    if kind == "bad_shape":
+        shp = list(subn)
+        shp[rng.randrange(len(shp))] += 1
+        a = np.ones(shp)
+        if tuple(shp) == subn or shp[-1] == 1:
+            shp = list(subn) + [2]
+            a = np.ones(shp)
+        return a, dict(kind="arr", shape=list(a.shape), data=Qs(a.reshape(-1).tolist())), None
+    raise ValueError(kind)
+
+
+def run_dict(case):
+    rng = random.Random(case["sub"])
+    fl = case["flavour"]
+    obs = {"oracle": [], "tags": ["kind:dict", "flavour:" + fl, "ctor:" + str(case["ctor"])]}
+    fail = obs["oracle"].append
+    m0 = fieldio.build_mesh(case["mesh"])
+    n = tuple(int(k) for k in m0.n)
+    pmin, cell = centres_exact(m0)
+    blocks = _dict_blocks(fl, n, rng)
+    names = [f"r{k}" for k in range(len(blocks))]
+    subregions = {nm: df.Region(p1=[float(p + l * c) for p, l, c in zip(pmin, lo, cell)],
+                                p2=[float(p + h * c) for p, h, c in zip(pmin, hi, cell)])
+                  for nm, (lo, hi) in zip(names, blocks)}
+    mesh = fieldio.build_mesh(case["mesh"], subregions=subregions)
+    nv = case["nvdim"]
+    arr = fieldio.gen_int_array(rng, (*n, nv), -3, 3)
+    mask0 = fieldio.gen_mask(rng, n, 0.6)
+    f = df.Field(mesh, nvdim=nv, value=arr, valid=mask0, unit="T")
+    obs["field"] = fieldio.field_json(f)
+    # ---- the dictionary
+    good = ["const", "const", "arr", "list", "arr_col", "arr_one", "func", "func"]
+    val, entries, exps = {}, [], {}
+    for k, (nm, (lo, hi)) in enumerate(zip(names, blocks)):
+        if fl in ("missing_keys", "random", "partial_none") and rng.random() < 0.35:
+            continue
+        kind = rng.choice(good)
+        if fl == "bad_value" and (k == 0 or rng.random() < 0.3):
+            kind = "bad"
+        if fl == "bad_shape" and (k == 0 or rng.random() < 0.3):
+            kind = "bad_shape"
+        py, mv, exp = _dict_value(kind, [h - l for l, h in zip(lo, hi)], pmin, cell, lo, rng)
+        val[nm] = py
+        entries.append(dict(name=nm, val=mv))
+        exps[nm] = exp
+    if fl in ("random", "missing_keys") and rng.random() < 0.2:
+        val["nosuchregion"] = True  # a key that names no subregion is never looked at
+        entries.append(dict(name="nosuchregion", val=dict(kind="const", v=Q(1))))
+    dk = {"partial_const": "const", "partial_func": "func", "partial_none": "none"}.get(fl) or rng.choice(["none", "const", "func", "none"])
+    dflt_exp = None
+    if dk == "const":
+        v = rng.choice([True, False, 0, 3])
+        val["default"] = v
+        dj = dict(kind="const", v=Q(Fraction(float(v))))
+        dflt_exp = np.full(n, bool(v))
+    elif dk == "func":
+        ax = rng.randrange(len(n))
+        c = pmin[ax] + (rng.randint(0, n[ax]) + Fraction(rng.choice([-1, 1]), 4)) * cell[ax]
+        cf = float(c)
+        val["default"] = lambda p: p[ax] < cf
+        dj = dict(kind="func", fun=dict(kind="halfspace", ax=ax, c=Q(c)))
+        dflt_exp = np.zeros(n, bool)
+        for idx in np.ndindex(*n):
+            dflt_exp[idx] = pmin[ax] + (idx[ax] + Fraction(1, 2)) * cell[ax] < c
+    else:
+        dj = dict(kind="none")
+    obs["default"], obs["entries"] = dj, entries
+    # ---- what the property promises: the FIRST subregion (mesh order) that is a key and contains the cell, else the default
+    expect_err = any(nm in exps and exps[nm] is None for nm in names)
+    exp = np.zeros(n, bool)
+    if not expect_err:
+        for idx in np.ndindex(*n):
+            for nm, (lo, hi) in zip(names, blocks):
+                if nm in exps and all(l <= i < h for i, l, h in zip(idx, lo, hi)):
+                    exp[idx] = exps[nm][tuple(i - l for i, l in zip(idx, lo))]
+                    break
+            else:
+                if dflt_exp is None:
+                    expect_err = True
+                    break
+                exp[idx] = dflt_exp[idx]
+    tag = "dict:" + fl
+    before, before_valid = f.array.copy(), f.valid.copy()
+    try:
+        if case["ctor"]:
+            g = df.Field(mesh, nvdim=nv, value=arr, valid=val, unit="T")
+        else:
+            g = f
+            g.valid = val
+        obs["ok"] = True
+    except Exception as e:
+        obs["ok"] = False
+        obs["err"] = type(e).__name__
+        if not np.array_equal(f.array, before) or not np.array_equal(f.valid, before_valid):
+            fail(f"[{tag}] a rejected assignment changed the field")
+        if not expect_err:
+            fail(f"[{tag}] raised {type(e).__name__}: {str(e)[:120]}")
+        obs["nontrivial"] = True
+        return obs
+    obs["res"] = fieldio.field_json(g)
+    v = g.valid
+    if not isinstance(v, np.ndarray) or v.dtype != np.bool_:
+        fail(f"[{tag}] validity has dtype {getattr(v, 'dtype', type(v))}, not bool")
+    if tuple(v.shape) != n:
+        fail(f"[{tag}] validity has shape {tuple(v.shape)}, mesh.n is {n}")
+    if not np.array_equal(g.array, before):
+        fail(f"[{tag}] setting validity changed the stored values")
+    if not expect_err and tuple(v.shape) == n and not np.array_equal(v, exp):
+        bad = np.argwhere(v != exp)[0].tolist()
+        fail(f"[{tag}] mask is not what the dictionary says: cell {bad} is {bool(v[tuple(bad)])}")
+    for nm, py in val.items():
+        if isinstance(py, np.ndarray) and np.shares_memory(v, py):
+            fail(f"[{tag}] stored validity shares memory with the array under key {nm!r}")
+    obs["nontrivial"] = (not expect_err) and 0 < int(exp.sum()) < exp.size
     return obs
 
 
@@ -1847,16 +2081,19 @@ def run_geo(case):
             obs["tags"].append("geo-ties:" + ("all-up" if lefts == 0 else "all-down" if lefts == nties else "mixed"))
         obs["tags"].append("geo-resample-ratio:" + ("down" if int(np.prod(rn)) < size else "up" if int(np.prod(rn)) > size else "same"))
         cost = int(np.prod(rn)) * sum(n)
+        band = np.zeros(rn, bool)
+        for b in range(nd):
+            shp = [1] * nd
+            shp[b] = rn[b]
+            band |= np.array(band_axes[b]).reshape(shp)
+        obs["band"] = band.reshape(-1).tolist()
         if cost <= GEO_MODEL_COST:
-            band = np.zeros(rn, bool)
-            for b in range(nd):
-                shp = [1] * nd
-                shp[b] = rn[b]
-                band |= np.array(band_axes[b]).reshape(shp)
-            obs["band"] = band.reshape(-1).tolist()
             obs["advice"] = advice
         else:
-            obs["tags"].append("geo-model:skipped-large")
+            # large: the model evaluates `resample` through the closed form of the source cell (theorems
+            # nearest_closed_form / resample_fast_is_resample), the array only
+            obs["fast"] = True
+            obs["tags"].append("geo-model:fast-large")
     else:
         # selection: the block of cells that was extracted
         first = [int(s.reshape(-1)[0]) for s in sidx]
@@ -1890,9 +2127,10 @@ def run_geo(case):
                                        f"extracted cells {lo[b]}..{hi[b] - 1}")
                 obs["node"] = dict(k="crop", lo=lo, hi=hi)
                 obs["tags"] += [_geo_dist_tag(p) for p in a["lo"] + a["hi"]]
-        if size > GEO_MODEL_COST:
-            obs.pop("node", None)
-            obs["tags"].append("geo-model:skipped-large")
+        if size > GEO_MODEL_COST and "node" in obs:
+            # large: the mapping operation alone (driver op `apply`), without index-level reading and store model
+            obs["fast"] = True
+            obs["tags"].append("geo-model:fast-large")
     obs["geo_dis"] = geo_dis
     return obs
 
@@ -1904,7 +2142,11 @@ def geo_requests(case, obs):
     if case["op"] != "resample":
         if "node" not in obs:
             return []
+        if obs.get("fast"):
+            return [dict(op="apply", mask=leaf, mop=obs["node"])]
         return [dict(op="eval", leaves=[leaf], prog=dict(t="map", op=obs["node"], p=dict(t="leaf", k=0)))]
+    if obs.get("fast"):
+        return [dict(op="resamplefast", mask=leaf, n=obs["shape"])]
     if "advice" not in obs:
         return []
     n, n2 = leaf["shape"], obs["shape"]
@@ -1940,6 +2182,8 @@ def geo_compare(case, obs, rs):
         if bad:
             dis.append(f"{what}: validity impl vs model ({'nearest-cell map' if k == 0 else 'lookup with the observed border decisions'}) "
                        f"differ at {len(bad)} cells, first flat cell {bad[0]} (impl {obs['mask'][bad[0]]})")
+        if obs.get("fast"):
+            continue
         if r["spec"] != m["data"] or r["shapeOf"] != m["shape"]:
             dis.append(f"{what}: model evaluator and index-level reading disagree")
         if r["alias"] is not None or r["addr"] is None or r["addr"] < r["nleaves"]:
@@ -1954,6 +2198,8 @@ def run_impl(case):
         return run_hist(case)
     if case["kind"] == "geo":
         return run_geo(case)
+    if case["kind"] == "dict":
+        return run_dict(case)
     return run_setter(case)
 
 
@@ -2035,6 +2281,18 @@ def compare_hist(case, obs, r):
                 dis.append(f"{what}: variable {j} is the object of variable {iv['same']} (impl) vs {mo} (model)")
             if ma != iv["mem"]:
                 dis.append(f"{what}: variable {j} shares validity memory with variable {iv['mem']} (impl) vs {ma} (model)")
+            # which variables hold ONE Mesh object (results keep the mesh of their operand), and its cells per axis
+            # The model's sharing is an UPPER bound: a library that copies the mesh where the model says "same object"
+            # loses nothing the property cares about (only counted, tag mesh:impl-copies); a library that shares a Mesh
+            # object where the model says "a mesh of its own" is reported.
+            mm = min(i for i, x in enumerate(ms) if x["mesh"] == mv["mesh"])
+            if ms[iv["mesh"]]["mesh"] != mv["mesh"]:
+                dis.append(f"{what}: variable {j} holds the Mesh object of variable {iv['mesh']} (impl), which the model gives "
+                           f"another mesh object (model: that of variable {mm})")
+            elif mm != iv["mesh"]:
+                obs.setdefault("tags", []).append("mesh:impl-copies")
+            if mv["meshn"] != iv["meshn"]:
+                dis.append(f"{what}: variable {j} mesh.n impl {iv['meshn']} vs model {mv['meshn']}")
         if dis:
             break
     return dis
@@ -2045,6 +2303,8 @@ def model_requests(case, obs):
         return [hist_request(case, obs)]
     if case["kind"] == "geo":
         return geo_requests(case, obs)
+    if case["kind"] == "dict":
+        return [dict(op="setdict", field=obs["field"], default=obs["default"], entries=obs["entries"])]
     if case["kind"] == "setter":
         m = obs["mspec"]
         if m["kind"] == "lookup":
@@ -2075,6 +2335,19 @@ def compare(case, obs, rs):
         return compare_hist(case, obs, rs[0])
     if case["kind"] == "geo":
         return geo_compare(case, obs, rs)
+    if case["kind"] == "dict":
+        r = rs[0]
+        if ("ok" in r) != bool(obs["ok"]):
+            return [f"dict {case['flavour']}: impl {'ok' if obs['ok'] else 'err ' + obs.get('err', '')} vs model {'ok' if 'ok' in r else r}"]
+        if obs["ok"]:
+            mj, got = r["ok"], obs["res"]
+            if got["data"] != mj["data"]:
+                dis.append(f"dict {case['flavour']}: stored values impl vs model differ")
+            if got["valid"] != mj["valid"]:
+                dis.append(f"dict {case['flavour']}: mask impl {got['valid']} vs model {mj['valid']}")
+            if mj["shape"] != got["mesh"]["n"]:
+                dis.append(f"dict {case['flavour']}: model shape {mj['shape']} vs mesh.n {got['mesh']['n']}")
+        return dis
     if case["kind"] == "setter":
         r = rs[0]
         if ("ok" in r) != bool(obs["ok"]):
@@ -2160,6 +2433,9 @@ def search(case, rng):
     elif case["kind"] == "geo":
         for _ in range(40):
             yield dict(case, sub=rng.getrandbits(32), pattern=rng.choice(GEO_PATTERNS + ["stripes_ax"]))
+    elif case["kind"] == "dict":
+        for _ in range(60):
+            yield dict(case, sub=rng.getrandbits(32), ctor=rng.random() < 0.5)
     else:
         for _ in range(60):
             yield dict(case, sub=rng.getrandbits(32), ctor=rng.random() < 0.5)
